@@ -71,8 +71,8 @@ theorem k10_retable {s : StR} {m6 : RM6} {m : RM10} {L : Bool} (h : K10 s m6 m L
 theorem k10_core {s : StR} {m6 : RM6} {m : RM10} {L : Bool} (h : K10 s m6 m L) (c' : St)
     (h1 : c'.reqs = s.core.reqs) (h2 : c'.nmake = s.core.nmake) (h3 : c'.closed = s.core.closed)
     (h4 : c'.connector = s.core.connector) (h5 : c'.proto = s.core.proto) (h6 : c'.nconn = s.core.nconn)
-    (hooks' : List (Nat × Hook)) (st : Bool) :
-    K10 { core := c', hooks := hooks', stubborn := st } m6 m L :=
+    (hooks' : List (Nat × Hook)) (st : Bool) (sy : Sync) :
+    K10 { core := c', hooks := hooks', stubborn := st, sync := sy } m6 m L :=
   ⟨h.ok, h.firedEq, by simp only [h3]; exact h.closedEq, by simp only [h3, h4]; exact h.connClosed,
    by simp only [h5, h6]; exact h.protoLt, by simp only [h2, h6]; exact h.wLt, by simp only [h1, h5]; exact h.unsentNW,
    by simp only [h3, h5]; exact h.downs, by simp only [h4, h5]; exact h.connProto⟩
@@ -93,12 +93,16 @@ def Pre10 (task : Task) (s : StR) (L : Bool) : Prop :=
   match task with
   | .sendLoop conn _ => s.core.proto = some conn ∧ L = false
   | .frames conn _ _ => s.core.proto = some conn ∧ L = false
+  | .lost => (∃ c, s.core.proto = some c) ∧ L = false
+  | .dial => s.core.proto = none ∧ L = false
   | _ => True
 
 /-- nested tasks never lose the connection -/
 def ProtoKeep (task : Task) (s s' : StR) : Prop :=
   match task with
   | .frames _ _ _ => True
+  | .lost => True
+  | .dial => True
   | _ => ∀ c, s.core.proto = some c → s'.core.proto = some c
 
 def Spec10 (cfg : Cfg) (n : Nat) : Prop :=
@@ -130,12 +134,12 @@ theorem spec10_fire (cfg : Cfg) (n : Nat) (ih : Spec10 cfg n) (s : StR) (k : Nat
     simp only [hl] at hnf ⊢
     obtain ⟨i1, _, _⟩ := inv6_fire id r hinv hown
     have j1 : Inv6 { s with hooks := s.hooks.filter (fun p => p.1 != k) } (Afkak.Monitor.C06.r06Ob m6 (.ob (.fire k id r))) [] L :=
-      inv6_core i1 s.core rfl rfl rfl _ _
+      inv6_core i1 s.core rfl rfl rfl _ _ _
     have j2 := inv6_hookBegin k j1
     have hnf2 : NoFuelOut (exec cfg n { s with hooks := s.hooks.filter (fun p => p.1 != k) } (.acts hh)).2 := by
       intro hm; apply hnf; simp [hm]
     have k1 : K10 { s with hooks := s.hooks.filter (fun p => p.1 != k) } (Afkak.Monitor.C06.r06Ob m6 (.ob (.fire k id r)))
-        (r10Ob m (.ob (.fire k id r))) L := k10_core (k10_fire hk k id r) s.core rfl rfl rfl rfl rfl rfl _ _
+        (r10Ob m (.ob (.fire k id r))) L := k10_core (k10_fire hk k id r) s.core rfl rfl rfl rfl rfl rfl _ _ _
     have k2 : K10 { s with hooks := s.hooks.filter (fun p => p.1 != k) }
         (Afkak.Monitor.C06.r06Ob (Afkak.Monitor.C06.r06Ob m6 (.ob (.fire k id r))) (.hookBegin k)) (r10Ob m (.ob (.fire k id r))) L :=
       k10_mon6 k1 rfl
@@ -194,7 +198,7 @@ theorem k10_flat_inert {s : StR} {m6 : RM6} {m : RM10} {L : Bool} (hk : K10 s m6
     (hos : ∀ o ∈ os, Inert10 o) (hos6 : ∀ o ∈ os, ∀ k i r, o ≠ .fire k i r) :
     K10 { s with core := c' } (fold6 m6 (obs os)) (fold10 m (obs os)) L := by
   rw [fold10_obs_inert m os hos, fold6_obs_inert m6 os hos6]
-  exact k10_core hk c' h1 h2 h3 h4 h5 h6 _ _
+  exact k10_core hk c' h1 h2 h3 h4 h5 h6 _ _ _
 
 theorem spec10_act (cfg : Cfg) (n : Nat) (ih : Spec10 cfg n) (s : StR) (a : Action) (m6 : RM6) (m : RM10) (L : Bool)
     (hpre : Pre6 (.act a) s m6 L) (hk : K10 s m6 m L) (hnf : NoFuelOut (exec cfg (n + 1) s (.act a)).2) :
@@ -204,7 +208,11 @@ theorem spec10_act (cfg : Cfg) (n : Nat) (ih : Spec10 cfg n) (s : StR) (a : Acti
   cases a with
   | close => simp only [exec] at hnf ⊢; exact ih s .close m6 m L hinv trivial hk hnf
   | cancel id => simp only [exec] at hnf ⊢; exact ih s (.cancel id) m6 m L hinv trivial hk hnf
-  | make id ex => simp only [exec] at hnf ⊢; exact ih s (.make id ex none) m6 m L hinv trivial hk hnf
+  | make id ex =>
+    simp only [exec] at hnf ⊢
+    by_cases hsy : s.sync = .none
+    · rw [if_pos hsy] at hnf ⊢; exact ih s (.make id ex none) m6 m L hinv trivial hk hnf
+    · rw [if_neg hsy] at hnf ⊢; exact ih s (.makeS id ex none) m6 m L hinv trivial hk hnf
   | disconnect =>
     simp only [exec, step]
     split
@@ -218,8 +226,8 @@ theorem k10_make_nowrite {s : StR} {m6 m6' : RM6} {m m' : RM10} {L : Bool} (hk :
     (hconn : c'.connector = s.core.connector ∨ (s.core.closed = false ∧ s.core.proto = none))
     (hreqs : ∀ r ∈ c'.reqs, r.sent = false → r ∈ s.core.reqs ∨ s.core.proto = none)
     (hf6 : m6'.fired = m6.fired) (h1 : m'.fired = m.fired) (h2 : m'.closed = m.closed) (h3 : m'.written = m.written)
-    (h4 : m'.downs = m.downs) (h5 : m'.ok = true) (hooks' : List (Nat × Hook)) (st : Bool) :
-    K10 { core := c', hooks := hooks', stubborn := st } m6' m' L := by
+    (h4 : m'.downs = m.downs) (h5 : m'.ok = true) (hooks' : List (Nat × Hook)) (st : Bool) (sy : Sync) :
+    K10 { core := c', hooks := hooks', stubborn := st, sync := sy } m6' m' L := by
   refine ⟨h5, by rw [h1, hf6]; exact hk.firedEq, by rw [h2]; simp only [hcl]; exact hk.closedEq, ?_, by simp only [hp, hnc]; exact hk.protoLt,
     ?_, ?_, by rw [h4]; simp only [hcl, hp]; exact hk.downs, ?_⟩
   · intro hc
@@ -250,8 +258,8 @@ theorem k10_make_write {s : StR} {m6 m6' : RM6} {m : RM10} {L : Bool} (hk : K10 
     (hn : c'.nmake = s.core.nmake + 1) (hcl : c'.closed = s.core.closed) (hp : c'.proto = s.core.proto) (hnc : c'.nconn = s.core.nconn)
     (hconn : c'.connector = s.core.connector)
     (hreqs : ∀ r ∈ c'.reqs, r.sent = false → r ∈ s.core.reqs)
-    (hf6 : m6'.fired = m6.fired) (hooks' : List (Nat × Hook)) (st : Bool) :
-    K10 { core := c', hooks := hooks', stubborn := st } m6'
+    (hf6 : m6'.fired = m6.fired) (hooks' : List (Nat × Hook)) (st : Bool) (sy : Sync) :
+    K10 { core := c', hooks := hooks', stubborn := st, sync := sy } m6'
       (r10Ob m (.ob (if lost then .writeLost conn s.core.nmake id else .write conn s.core.nmake id))) L := by
   have hnw : (conn, s.core.nmake) ∉ m.written := fun hw => by have := (hk.wLt _ hw).2; simp at this
   have hnf : s.core.nmake ∉ m.fired := by
@@ -300,15 +308,15 @@ theorem spec10_make (cfg : Cfg) (n : Nat) (ih : Spec10 cfg n) (s : StR) (id : In
     -- the Deferred fires at once (after `made`, possibly after a write)
     have pend : ∀ (res : Res) (hooks' : List (Nat × Hook)) (c' : St) (m' : RM10), (∀ b, res ≠ .ok b) →
         c'.reqs = s.core.reqs → c'.nmake = s.core.nmake + 1 → c'.closed = s.core.closed → c'.proto = s.core.proto →
-        (∀ hooks', K10 { core := c', hooks := hooks', stubborn := s.stubborn } (Afkak.Monitor.C06.r06Ob m6 (.made s.core.nmake id)) m' L) →
-        NoFuelOut (exec cfg n { core := c', hooks := hooks', stubborn := s.stubborn } (.fire s.core.nmake id res)).2 →
-        K10 (exec cfg n { core := c', hooks := hooks', stubborn := s.stubborn } (.fire s.core.nmake id res)).1
-          (fold6 (Afkak.Monitor.C06.r06Ob m6 (.made s.core.nmake id)) (exec cfg n { core := c', hooks := hooks', stubborn := s.stubborn } (.fire s.core.nmake id res)).2)
-          (fold10 m' (exec cfg n { core := c', hooks := hooks', stubborn := s.stubborn } (.fire s.core.nmake id res)).2) L ∧
+        (∀ hooks', K10 { core := c', hooks := hooks', stubborn := s.stubborn, sync := s.sync } (Afkak.Monitor.C06.r06Ob m6 (.made s.core.nmake id)) m' L) →
+        NoFuelOut (exec cfg n { core := c', hooks := hooks', stubborn := s.stubborn, sync := s.sync } (.fire s.core.nmake id res)).2 →
+        K10 (exec cfg n { core := c', hooks := hooks', stubborn := s.stubborn, sync := s.sync } (.fire s.core.nmake id res)).1
+          (fold6 (Afkak.Monitor.C06.r06Ob m6 (.made s.core.nmake id)) (exec cfg n { core := c', hooks := hooks', stubborn := s.stubborn, sync := s.sync } (.fire s.core.nmake id res)).2)
+          (fold10 m' (exec cfg n { core := c', hooks := hooks', stubborn := s.stubborn, sync := s.sync } (.fire s.core.nmake id res)).2) L ∧
         (∀ c, s.core.proto = some c →
-          (exec cfg n { core := c', hooks := hooks', stubborn := s.stubborn } (.fire s.core.nmake id res)).1.core.proto = some c) := by
+          (exec cfg n { core := c', hooks := hooks', stubborn := s.stubborn, sync := s.sync } (.fire s.core.nmake id res)).1.core.proto = some c) := by
       intro res hooks' c' m' hres h1 h2 h3 h4 kk hnf'
-      have j := inv6_made_pend id hinv c' h1 h2 h3 hooks' s.stubborn
+      have j := inv6_made_pend id hinv c' h1 h2 h3 hooks' s.stubborn s.sync
       obtain ⟨k2, pk⟩ := ih _ (.fire s.core.nmake id res) _ m' L ⟨j, fun b hb => absurd hb (hres b)⟩ trivial (kk hooks') hnf'
       exact ⟨k2, fun c hc => pk c (by simp only [h4]; exact hc)⟩
     have r6made : (Afkak.Monitor.C06.r06Ob m6 (.made s.core.nmake id)).fired = m6.fired := by
@@ -318,7 +326,7 @@ theorem spec10_make (cfg : Cfg) (n : Nat) (ih : Spec10 cfg n) (s : StR) (id : In
       rw [fold6_cons, fold10_cons, r10_made]
       exact pend _ _ _ _ (by simp) (by rfl) (by rfl) (by simp [hc]) (by rfl)
         (by intro hooks'
-            exact k10_make_nowrite hk _ (by rfl) (by simp [hc]) (by rfl) (by rfl) (Or.inl (by rfl)) (fun r hr _ => Or.inl (by exact hr)) r6made rfl rfl rfl rfl hk.ok hooks' s.stubborn)
+            exact k10_make_nowrite hk _ (by rfl) (by simp [hc]) (by rfl) (by rfl) (Or.inl (by rfl)) (fun r hr _ => Or.inl (by exact hr)) r6made rfl rfl rfl rfl hk.ok hooks' s.stubborn s.sync)
         hnf.cons
     · have hc' : s.core.closed = false := by simpa using hc
       simp only [hc', Bool.false_eq_true, if_false] at hnf ⊢
@@ -330,7 +338,7 @@ theorem spec10_make (cfg : Cfg) (n : Nat) (ih : Spec10 cfg n) (s : StR) (id : In
           rw [fold6_cons, fold10_cons, r10_made]
           obtain ⟨a, b⟩ := pend _ _ _ _ (by simp) (by rfl) (by rfl) (by simp [hc']) (by simp [hp])
             (by intro hooks'
-                exact k10_make_nowrite hk _ (by rfl) (by simp [hc']) (by simp [hp]) (by rfl) (Or.inl (by rfl)) (fun r hr _ => Or.inl (by exact hr)) r6made rfl rfl rfl rfl hk.ok hooks' s.stubborn)
+                exact k10_make_nowrite hk _ (by rfl) (by simp [hc']) (by simp [hp]) (by rfl) (Or.inl (by rfl)) (fun r hr _ => Or.inl (by exact hr)) r6made rfl rfl rfl rfl hk.ok hooks' s.stubborn s.sync)
             hnf.cons
           exact ⟨a, fun c hcc => b c (by simpa [hp] using hcc)⟩
         · have hw' : s.core.wfail = false := by simpa using hw
@@ -351,7 +359,7 @@ theorem spec10_make (cfg : Cfg) (n : Nat) (ih : Spec10 cfg n) (s : StR) (id : In
                   rcases List.mem_append.mp hr with hr | hr
                   · exact hr
                   · simp only [List.mem_singleton] at hr; subst hr; simp at hs)
-              r6made _ _
+              r6made _ _ _
           | false =>
             simp only [Bool.false_eq_true, if_false] at hnf ⊢
             have hf6 : ∀ tl, fold6 m6 ([ObR.ob (if s.core.losing = true then Ob.writeLost conn s.core.nmake id else Ob.write conn s.core.nmake id),
@@ -363,7 +371,7 @@ theorem spec10_make (cfg : Cfg) (n : Nat) (ih : Spec10 cfg n) (s : StR) (id : In
             rw [hf6, hf10]
             obtain ⟨a, b⟩ := pend _ _ _ _ (by simp) (by rfl) (by rfl) (by simp [hc']) (by simp [hp])
               (by intro hooks'
-                  exact k10_make_write hk hinv _ conn id s.core.losing hp hc' (by rfl) (by simp [hc']) (by simp [hp]) (by rfl) (by rfl) (fun r hr _ => by exact hr) r6made hooks' s.stubborn)
+                  exact k10_make_write hk hinv _ conn id s.core.losing hp hc' (by rfl) (by simp [hc']) (by simp [hp]) (by rfl) (by rfl) (fun r hr _ => by exact hr) r6made hooks' s.stubborn s.sync)
               hnf.append_right
             exact ⟨a, fun c hcc => b c (by simpa [hp] using hcc)⟩
       | none =>
@@ -379,10 +387,10 @@ theorem spec10_make (cfg : Cfg) (n : Nat) (ih : Spec10 cfg n) (s : StR) (id : In
           have hmc : m.closed = false := by rw [hk.closedEq]; exact hc'
           exact k10_make_nowrite hk _ (by rfl) (by simp [hc']) (by simp [hp]) (by rfl) (Or.inr ⟨hc', hp⟩) (fun r hr _ => Or.inr hp) r6made
             (by simp [r10Ob, Afkak.Monitor.C10.r10Ob]) (by simp [r10Ob, Afkak.Monitor.C10.r10Ob]) (by simp [r10Ob, Afkak.Monitor.C10.r10Ob])
-            (by simp [r10Ob, Afkak.Monitor.C10.r10Ob]) (by simp [r10Ob, Afkak.Monitor.C10.r10Ob, hk.ok, hmc]) _ _
+            (by simp [r10Ob, Afkak.Monitor.C10.r10Ob]) (by simp [r10Ob, Afkak.Monitor.C10.r10Ob, hk.ok, hmc]) _ _ _
         · simp only [hco, if_false]
           simp only [fold6_cons, fold6_nil, fold10_cons, fold10_nil, r10_made]
-          exact k10_make_nowrite hk _ (by rfl) (by simp [hc']) (by simp [hp]) (by rfl) (Or.inl (by rfl)) (fun r hr _ => Or.inr hp) r6made rfl rfl rfl rfl hk.ok _ _
+          exact k10_make_nowrite hk _ (by rfl) (by simp [hc']) (by simp [hp]) (by rfl) (Or.inl (by rfl)) (fun r hr _ => Or.inr hp) r6made rfl rfl rfl rfl hk.ok _ _ _
 
 
 /-- closed and not connected -/
@@ -395,14 +403,14 @@ theorem exec_closedNone (cfg : Cfg) : ∀ (n : Nat) (s : StR) (task : Task), CN 
   | zero => intro s task h; simpa [exec] using h
   | succ n ih =>
     intro s task h
-    have hre : ∀ c' : St, c'.closed = s.core.closed → c'.proto = s.core.proto → ∀ hooks' st, CN { core := c', hooks := hooks', stubborn := st } := by
-      intro c' h1 h2 _ _; exact ⟨by simp only [h1]; exact h.1, by simp only [h2]; exact h.2⟩
+    have hre : ∀ c' : St, c'.closed = s.core.closed → c'.proto = s.core.proto → ∀ hooks' st sy, CN { core := c', hooks := hooks', stubborn := st, sync := sy } := by
+      intro c' h1 h2 _ _ _; exact ⟨by simp only [h1]; exact h.1, by simp only [h2]; exact h.2⟩
     cases task with
     | fire k id r =>
       rw [exec_fire_eq]
       cases lookupHook s.hooks k with
       | none => exact h
-      | some hh => exact ih _ _ (hre s.core rfl rfl _ _)
+      | some hh => exact ih _ _ (hre s.core rfl rfl _ _ _)
     | fireAll l r =>
       cases l with
       | nil => rw [exec_fireAll_nil]; exact h
@@ -418,16 +426,16 @@ theorem exec_closedNone (cfg : Cfg) : ∀ (n : Nat) (s : StR) (task : Task), CN 
         simp only [exec, step, h.2]
         exact h
       | cancel id => simp only [exec]; exact ih _ _ h
-      | make id ex => simp only [exec]; exact ih _ _ h
+      | make id ex => simp only [exec]; split <;> exact ih _ _ h
     | make id ex hk =>
       simp only [exec, h.1, if_true]
       split
       · exact h
-      · exact ih _ _ (hre _ (by simp [h.1]) (by rfl) _ _)
+      · exact ih _ _ (hre _ (by simp [h.1]) (by rfl) _ _ _)
     | cancel id =>
       rw [exec_cancel_eq]
       split
-      · exact ih _ _ (hre _ rfl rfl _ _)
+      · exact ih _ _ (hre _ rfl rfl _ _ _)
       · exact h
     | close => simp only [exec, h.1, if_true]; exact h
     | closeLoop =>
@@ -436,8 +444,8 @@ theorem exec_closedNone (cfg : Cfg) : ∀ (n : Nat) (s : StR) (task : Task), CN 
       · exact h
       · simp only
         split
-        · exact ih _ _ (hre _ rfl rfl _ _)
-        · exact ih _ _ (ih _ _ (hre _ rfl rfl _ _))
+        · exact ih _ _ (hre _ rfl rfl _ _ _)
+        · exact ih _ _ (ih _ _ (hre _ rfl rfl _ _ _))
     | sendLoop conn snap =>
       cases snap with
       | nil => rw [exec_sendLoop_nil]; exact h
@@ -447,26 +455,36 @@ theorem exec_closedNone (cfg : Cfg) : ∀ (n : Nat) (s : StR) (task : Task), CN 
         · exact ih _ _ h
         · simp only
           split
-          · exact ih _ _ (ih _ _ (hre _ rfl rfl _ _))
+          · exact ih _ _ (ih _ _ (hre _ rfl rfl _ _ _))
           · split
-            · exact ih _ _ (hre _ rfl rfl _ _)
-            · exact ih _ _ (ih _ _ (hre _ rfl rfl _ _))
+            · exact ih _ _ (hre _ rfl rfl _ _ _)
+            · exact ih _ _ (ih _ _ (hre _ rfl rfl _ _ _))
     | frames conn fs f =>
       cases fs with
       | nil =>
         rw [exec_frames_nil]
         split
-        · exact hre _ rfl rfl _ _
-        · exact hre _ rfl rfl _ _
+        · exact hre _ rfl rfl _ _ _
+        · exact hre _ rfl rfl _ _ _
       | cons b bs =>
         rw [exec_frames_cons]
         split
-        · simp only [lostStep, h.1, if_true]; exact ⟨rfl, rfl⟩
+        · split
+          · simp only [lostStep, h.1, if_true]; exact ⟨rfl, rfl⟩
+          · exact ih _ _ h
         · simp only
           split
-          · exact ih _ _ (ih _ _ (hre _ rfl rfl _ _))
-          · exact ih _ _ (hre _ rfl rfl _ _)
-
+          · exact ih _ _ (ih _ _ (hre _ rfl rfl _ _ _))
+          · exact ih _ _ (hre _ rfl rfl _ _ _)
+    | makeS id ex hk =>
+      simp only [exec, h.1, Bool.not_true, Bool.and_false, Bool.false_and, Bool.false_eq_true, if_false]
+      exact ih _ _ h
+    | lost =>
+      simp only [exec, h.1, if_true]
+      exact ⟨rfl, rfl⟩
+    | dial =>
+      simp only [exec, h.1, if_true]
+      exact h
 
 theorem spec10_cancel (cfg : Cfg) (n : Nat) (ih : Spec10 cfg n) (s : StR) (id : Int) (m6 : RM6) (m : RM10) (L : Bool)
     (hpre : Pre6 (.cancel id) s m6 L) (hk : K10 s m6 m L) (hnf : NoFuelOut (exec cfg (n + 1) s (.cancel id)).2) :
@@ -530,8 +548,8 @@ theorem k10_closing {s : StR} {m6 : RM6} {m : RM10} {L : Bool} (hk : K10 s m6 m 
     (hconn : c'.connector = .none ∨ c'.connector = .stale) (hcp : c'.proto ≠ none → c'.connector = .none)
     (hpl : ∀ c, c'.proto = some c → c < c'.nconn) (hnc : s.core.nconn ≤ c'.nconn)
     (hun : ∀ c, c'.proto = some c → s.core.proto = some c ∨ s.core.nconn ≤ c)
-    (hooks' : List (Nat × Hook)) (st : Bool) :
-    K10 { core := c', hooks := hooks', stubborn := st } (Afkak.Monitor.C06.r06Ob m6 .closing) (r10Ob m .closing) true := by
+    (hooks' : List (Nat × Hook)) (st : Bool) (sy : Sync) :
+    K10 { core := c', hooks := hooks', stubborn := st, sync := sy } (Afkak.Monitor.C06.r06Ob m6 .closing) (r10Ob m .closing) true := by
   have hd : m.downs = 0 := by
     rcases hk.downs with h | ⟨_, h, _⟩
     · exact h
@@ -571,8 +589,8 @@ theorem close10_core (cfg : Cfg) (n : Nat) (ih : Spec10 cfg n) (s : StR) (m6 : R
     · rfl
     · have := hinv.lClosed hLL; simp_all
   subst hL
-  obtain ⟨j, _⟩ := inv6_closing hinv hcl c' h1 h2 h3 s.hooks s.stubborn
-  have kk := k10_closing hk hcl c' h1 h2 h3 hconn hcp hpl hnc hun s.hooks s.stubborn
+  obtain ⟨j, _⟩ := inv6_closing hinv hcl c' h1 h2 h3 s.hooks s.stubborn s.sync
+  have kk := k10_closing hk hcl c' h1 h2 h3 hconn hcp hpl hnc hun s.hooks s.stubborn s.sync
   obtain ⟨k2, pk⟩ := ih { s with core := c' } .closeLoop _ _ true ⟨j, rfl⟩ trivial kk hnf
   refine ⟨?_, fun c hc => pk c hc⟩
   have hf6 : fold6 m6 ([ObR.closing] ++ obs pre ++ (exec cfg n { s with core := c' } .closeLoop).2 ++ obs (if dn then [.down] else []))
@@ -835,16 +853,21 @@ theorem spec10_frames (cfg : Cfg) (n : Nat) (ih : Spec10 cfg n) (s : StR) (conn 
     rw [exec_frames_cons] at hnf ⊢
     cases hid : corrId b with
     | none =>
-      simp only [hid]
-      obtain ⟨_, _, hob⟩ := inv6_lost hinv
-      have hf6 : fold6 m6 (ObR.ob Ob.raiseUnderflow :: obs (lostStep s.core).2) = m6 := by
-        rw [fold6_cons]
-        have : Afkak.Monitor.C06.r06Ob m6 (.ob .raiseUnderflow) = m6 := by simp [Afkak.Monitor.C06.r06Ob]
-        rw [this, fold6_obs_inert m6 _ hob]
-      have hf10 : fold10 m (ObR.ob Ob.raiseUnderflow :: obs (lostStep s.core).2) = fold10 m (obs (lostStep s.core).2) := by
-        rw [fold10_cons]; rfl
-      rw [hf6, hf10]
-      exact k10_lost hk conn hp
+      simp only [hid] at hnf ⊢
+      have hru : Afkak.Monitor.C06.r06Ob m6 (.ob .raiseUnderflow) = m6 := by simp [Afkak.Monitor.C06.r06Ob]
+      by_cases hsy : s.sync = .none
+      · rw [if_pos hsy]
+        obtain ⟨_, _, hob⟩ := inv6_lost hinv
+        have hf6 : fold6 m6 (ObR.ob Ob.raiseUnderflow :: obs (lostStep s.core).2) = m6 := by
+          rw [fold6_cons, hru, fold6_obs_inert m6 _ hob]
+        have hf10 : fold10 m (ObR.ob Ob.raiseUnderflow :: obs (lostStep s.core).2) = fold10 m (obs (lostStep s.core).2) := by
+          rw [fold10_cons]; rfl
+        rw [hf6, hf10]
+        exact k10_lost hk conn hp
+      · rw [if_neg hsy] at hnf ⊢
+        obtain ⟨k2, _⟩ := ih s .lost m6 m false hinv ⟨⟨conn, hp⟩, rfl⟩ hk hnf.cons
+        rw [fold6_cons, fold10_cons, hru]
+        exact k2
     | some id =>
       simp only [hid] at hnf ⊢
       have j := inv6_filterId hinv id
@@ -881,6 +904,143 @@ theorem spec10_frames (cfg : Cfg) (n : Nat) (ih : Spec10 cfg n) (s : StR) (conn 
         rw [h6, h10]
         exact k2
 
+/-- a flat step that moves only the connector (and clocks); the monitor saw a `connect`, a `setTimer` or nothing -/
+theorem k10_connector {s : StR} {m6 : RM6} {m m' : RM10} {L : Bool} (hk : K10 s m6 m L) (c' : St)
+    (h1 : c'.reqs = s.core.reqs) (h2 : c'.nmake = s.core.nmake) (h3 : c'.closed = s.core.closed)
+    (h5 : c'.proto = s.core.proto) (h6 : c'.nconn = s.core.nconn)
+    (hcc : c'.closed = true → c'.connector = .none ∨ c'.connector = .stale) (hcp : c'.proto ≠ none → c'.connector = .none)
+    (e1 : m'.ok = true) (e2 : m'.fired = m.fired) (e3 : m'.closed = m.closed) (e4 : m'.written = m.written) (e5 : m'.downs = m.downs) :
+    K10 { s with core := c' } m6 m' L :=
+  ⟨e1, by rw [e2]; exact hk.firedEq, by rw [e3]; simp only [h3]; exact hk.closedEq, hcc, by simp only [h5, h6]; exact hk.protoLt,
+   by rw [e4]; simp only [h2, h6]; exact hk.wLt, by rw [e4]; simp only [h1, h5]; exact hk.unsentNW,
+   by rw [e5]; simp only [h3, h5]; exact hk.downs, hcp⟩
+
+/-- the monitor saw a `connect` or a `setTimer` while the client is not closed -/
+theorem k10_dialOb {s : StR} {m6 : RM6} {m : RM10} {L : Bool} (hk : K10 s m6 m L) (hcl : s.core.closed = false) (o : Ob)
+    (ho : (∃ a b, o = .connect a b) ∨ ∃ d, o = .setTimer d) : K10 s m6 (r10Ob m (.ob o)) L := by
+  have hmc : m.closed = false := by rw [hk.closedEq]; exact hcl
+  rcases ho with ⟨a, b, rfl⟩ | ⟨d, rfl⟩ <;>
+    exact ⟨by simp [r10Ob, Afkak.Monitor.C10.r10Ob, hk.ok, hmc], hk.firedEq, hk.closedEq, hk.connClosed, hk.protoLt, hk.wLt,
+      hk.unsentNW, hk.downs, hk.connProto⟩
+
+/-- `cbConnect`: the connection is up (nothing written yet) -/
+theorem k10_established {s : StR} {m6 : RM6} {m : RM10} {L : Bool} (hk : K10 s m6 m L) (hcl : s.core.closed = false)
+    (hooks' : List (Nat × Hook)) (st : Bool) (sy : Sync) :
+    K10 { core := established s.core, hooks := hooks', stubborn := st, sync := sy } m6 m L := by
+  have hd : m.downs = 0 := by
+    rcases hk.downs with x | ⟨_, x, _⟩
+    · exact x
+    · simp_all
+  refine ⟨hk.ok, hk.firedEq, hk.closedEq, by simp [established], by simp [established], ?_, ?_, Or.inl hd, by simp [established]⟩
+  · intro w hw; have := hk.wLt w hw; simp only [established]; omega
+  · intro r hr hs c hpc hw
+    simp only [established, Option.some.injEq] at hpc
+    have := (hk.wLt _ hw).1
+    simp only at this; omega
+
+theorem spec10_dial (cfg : Cfg) (n : Nat) (ih : Spec10 cfg n) (s : StR) (m6 : RM6) (m : RM10) (L : Bool)
+    (hpre : Pre6 .dial s m6 L) (hpre10 : Pre10 .dial s L) (hk : K10 s m6 m L) (hnf : NoFuelOut (exec cfg (n + 1) s .dial).2) :
+    K10 (exec cfg (n + 1) s .dial).1 (fold6 m6 (exec cfg (n + 1) s .dial).2) (fold10 m (exec cfg (n + 1) s .dial).2) L := by
+  have hinv : Inv6 s m6 [] L := hpre
+  obtain ⟨hp, hL⟩ := hpre10
+  subst hL
+  have r6c : ∀ a b, Afkak.Monitor.C06.r06Ob m6 (.ob (.connect a b)) = m6 := by intro a b; simp [Afkak.Monitor.C06.r06Ob]
+  have r6t : ∀ d, Afkak.Monitor.C06.r06Ob m6 (.ob (.setTimer d)) = m6 := by intro d; simp [Afkak.Monitor.C06.r06Ob]
+  simp only [exec] at hnf ⊢
+  split
+  · simp only [fold6_cons, fold6_nil, fold10_cons, fold10_nil, Afkak.Monitor.C06.r06Ob, r10Ob, Afkak.Monitor.C10.r10Ob]
+    exact hk
+  · rename_i hc
+    have hcl : s.core.closed = false := by simpa using hc
+    have k1 := k10_dialOb hk hcl (.connect s.core.host s.core.port) (Or.inl ⟨_, _, rfl⟩)
+    split
+    · simp only [fold6_cons, fold6_nil, fold10_cons, fold10_nil, r6c]
+      exact k10_connector k1 _ rfl rfl rfl rfl rfl (by simp [hcl]) (by simp [hp]) k1.ok rfl rfl rfl rfl
+    · have k2 := k10_dialOb k1 hcl (.setTimer (cfg.policy (s.core.failures + 1))) (Or.inr ⟨_, rfl⟩)
+      simp only [fold6_cons, fold6_nil, fold10_cons, fold10_nil, r6c, r6t]
+      exact k10_connector k2 _ rfl rfl rfl rfl rfl (by simp [hcl]) (by simp [hp]) k2.ok rfl rfl rfl rfl
+    · rename_i hsy
+      rw [if_neg hc] at hnf
+      simp only [hsy] at hnf ⊢
+      have j := inv6_core hinv (established s.core) rfl rfl rfl s.hooks s.stubborn Sync.ok
+      have kk := k10_established k1 hcl s.hooks s.stubborn Sync.ok
+      obtain ⟨k3, _⟩ := ih _ (.sendLoop s.core.nconn (s.core.reqs.map (·.serial))) m6 _ false j ⟨rfl, rfl⟩ kk hnf.cons
+      rw [fold6_cons, fold10_cons, r6c]
+      exact k3
+
+theorem spec10_lost (cfg : Cfg) (n : Nat) (ih : Spec10 cfg n) (s : StR) (m6 : RM6) (m : RM10) (L : Bool)
+    (hpre : Pre6 .lost s m6 L) (hpre10 : Pre10 .lost s L) (hk : K10 s m6 m L) (hnf : NoFuelOut (exec cfg (n + 1) s .lost).2) :
+    K10 (exec cfg (n + 1) s .lost).1 (fold6 m6 (exec cfg (n + 1) s .lost).2) (fold10 m (exec cfg (n + 1) s .lost).2) L := by
+  have hinv : Inv6 s m6 [] L := hpre
+  obtain ⟨⟨conn, hp⟩, hL⟩ := hpre10
+  subst hL
+  have hd : m.downs = 0 := by
+    rcases hk.downs with h | ⟨_, _, h, _⟩
+    · exact h
+    · rw [hp] at h; cases h
+  have hco := hk.connProto (by simp [hp])
+  simp only [exec] at hnf ⊢
+  split
+  · rename_i hc
+    have hmc : m.closed = true := by rw [hk.closedEq]; exact hc
+    simp only [fold6_cons, fold6_nil, fold10_cons, fold10_nil]
+    have h6 : Afkak.Monitor.C06.r06Ob m6 (.ob .down) = m6 := by simp [Afkak.Monitor.C06.r06Ob]
+    rw [h6]
+    exact ⟨by simp [r10Ob, Afkak.Monitor.C10.r10Ob, hk.ok, hmc, hd], hk.firedEq, by simp [r10Ob, Afkak.Monitor.C10.r10Ob, hmc, hc],
+      fun _ => Or.inl hco, by simp, hk.wLt, by simp, Or.inr ⟨by simp [r10Ob, Afkak.Monitor.C10.r10Ob, hd], hc, rfl, rfl⟩, by simp⟩
+  · rename_i hc
+    have hcl : s.core.closed = false := by simpa using hc
+    have base : ∀ c' : St, c'.closed = s.core.closed → c'.proto = none → c'.nconn = s.core.nconn → c'.nmake = s.core.nmake →
+        K10 { s with core := c' } m6 m false := by
+      intro c' h1 h2 h3 h4
+      exact ⟨hk.ok, hk.firedEq, by rw [hk.closedEq, h1], by simp [h1, hcl], by simp [h2], by simp only [h3, h4]; exact hk.wLt, by simp [h2],
+        Or.inl hd, by simp [h2]⟩
+    split
+    · simp only [fold6_nil, fold10_nil]
+      exact base _ (by rfl) (by rfl) (by rfl) (by rfl)
+    · rename_i he
+      rw [if_neg hc, if_neg he] at hnf
+      obtain ⟨k2, _⟩ := ih _ .dial m6 m false (inv6_lostTable hinv _ (by rfl) (by rfl) (by rfl)) ⟨rfl, rfl⟩ (base _ (by rfl) (by rfl) (by rfl) (by rfl)) hnf
+      exact k2
+
+theorem spec10_makeS (cfg : Cfg) (n : Nat) (ih : Spec10 cfg n) (s : StR) (id : Int) (ex : Bool) (hk0 : Option Hook) (m6 : RM6) (m : RM10) (L : Bool)
+    (hpre : Pre6 (.makeS id ex hk0) s m6 L) (hk : K10 s m6 m L) (hnf : NoFuelOut (exec cfg (n + 1) s (.makeS id ex hk0)).2) :
+    K10 (exec cfg (n + 1) s (.makeS id ex hk0)).1 (fold6 m6 (exec cfg (n + 1) s (.makeS id ex hk0)).2)
+      (fold10 m (exec cfg (n + 1) s (.makeS id ex hk0)).2) L ∧
+    ProtoKeep (.makeS id ex hk0) s (exec cfg (n + 1) s (.makeS id ex hk0)).1 := by
+  have hinv : Inv6 s m6 [] L := hpre
+  have r6c : ∀ a b, Afkak.Monitor.C06.r06Ob m6 (.ob (.connect a b)) = m6 := by intro a b; simp [Afkak.Monitor.C06.r06Ob]
+  simp only [exec] at hnf ⊢
+  split
+  · rename_i hcond
+    rw [if_pos hcond] at hnf
+    simp only [Bool.and_eq_true, Bool.not_eq_eq_eq_not, Bool.not_true, bne_iff_ne, ne_eq, Option.isNone_iff_eq_none] at hcond
+    obtain ⟨⟨⟨⟨_, hcl⟩, hp⟩, _⟩, hd⟩ := hcond
+    have k1 := k10_dialOb hk hcl (.connect s.core.host s.core.port) (Or.inl ⟨_, _, rfl⟩)
+    refine ⟨?_, fun c hcc => by rw [hp] at hcc; cases hcc⟩
+    split
+    · rename_i hsy
+      simp only [hsy] at hnf ⊢
+      have j := inv6_core hinv (established s.core) rfl rfl rfl s.hooks s.stubborn Sync.ok
+      have kk := k10_established k1 hcl s.hooks s.stubborn Sync.ok
+      obtain ⟨k3, _⟩ := ih _ (.make id ex hk0) m6 _ L j trivial kk hnf.cons
+      rw [fold6_cons, fold10_cons, r6c]
+      exact k3
+    · have k2 := k10_dialOb k1 hcl (.setTimer (cfg.policy 1)) (Or.inr ⟨_, rfl⟩)
+      have hf6 : fold6 m6 [ObR.ob (Ob.connect s.core.host s.core.port), ObR.ob (Ob.setTimer (cfg.policy 1)), ObR.made s.core.nmake id]
+          = Afkak.Monitor.C06.r06Ob m6 (.made s.core.nmake id) := by simp [fold6, Afkak.Monitor.C06.r06Ob]
+      have hf10 : fold10 m [ObR.ob (Ob.connect s.core.host s.core.port), ObR.ob (Ob.setTimer (cfg.policy 1)), ObR.made s.core.nmake id]
+          = r10Ob (r10Ob m (.ob (.connect s.core.host s.core.port))) (.ob (.setTimer (cfg.policy 1))) := by
+        simp [fold10, r10_made]
+      have r6made : (Afkak.Monitor.C06.r06Ob m6 (.made s.core.nmake id)).fired = m6.fired := by
+        simp only [Afkak.Monitor.C06.r06Ob]
+      rw [hf6, hf10]
+      exact k10_make_nowrite k2 _ (by rfl) (by simp [hcl]) (by simp [hp]) (by rfl) (Or.inr ⟨hcl, hp⟩) (fun r hr _ => Or.inr hp) r6made
+        rfl rfl rfl rfl k2.ok _ _ _
+  · rename_i hcond
+    rw [if_neg hcond] at hnf
+    exact ih s (.make id ex hk0) m6 m L hinv trivial hk hnf
+
 /-- the coupling holds at every amount of fuel -/
 theorem spec10 (cfg : Cfg) : ∀ n, Spec10 cfg n := by
   intro n
@@ -899,18 +1059,10 @@ theorem spec10 (cfg : Cfg) : ∀ n, Spec10 cfg n := by
     | closeLoop => exact spec10_closeLoop cfg n ih s m6 m L hpre hk hnf
     | sendLoop c snap => exact spec10_sendLoop cfg n ih s c snap m6 m L hpre hpre10 hk hnf
     | frames c fs f => exact ⟨spec10_frames cfg n ih s c fs f m6 m L hpre hpre10 hk hnf, trivial⟩
+    | makeS id ex h => exact spec10_makeS cfg n ih s id ex h m6 m L hpre hk hnf
+    | lost => exact ⟨spec10_lost cfg n ih s m6 m L hpre hpre10 hk hnf, trivial⟩
+    | dial => exact ⟨spec10_dial cfg n ih s m6 m L hpre hpre10 hk hnf, trivial⟩
 
-
-/-- a flat step that moves only the connector (and clocks); the monitor saw a `connect`, a `setTimer` or nothing -/
-theorem k10_connector {s : StR} {m6 : RM6} {m m' : RM10} {L : Bool} (hk : K10 s m6 m L) (c' : St)
-    (h1 : c'.reqs = s.core.reqs) (h2 : c'.nmake = s.core.nmake) (h3 : c'.closed = s.core.closed)
-    (h5 : c'.proto = s.core.proto) (h6 : c'.nconn = s.core.nconn)
-    (hcc : c'.closed = true → c'.connector = .none ∨ c'.connector = .stale) (hcp : c'.proto ≠ none → c'.connector = .none)
-    (e1 : m'.ok = true) (e2 : m'.fired = m.fired) (e3 : m'.closed = m.closed) (e4 : m'.written = m.written) (e5 : m'.downs = m.downs) :
-    K10 { s with core := c' } m6 m' L :=
-  ⟨e1, by rw [e2]; exact hk.firedEq, by rw [e3]; simp only [h3]; exact hk.closedEq, hcc, by simp only [h5, h6]; exact hk.protoLt,
-   by rw [e4]; simp only [h2, h6]; exact hk.wLt, by rw [e4]; simp only [h1, h5]; exact hk.unsentNW,
-   by rw [e5]; simp only [h3, h5]; exact hk.downs, hcp⟩
 
 theorem k10_flat_other (cfg : Cfg) (s : StR) (m6 : RM6) (m : RM10) (h : Inv6 s m6 [] false) (hk : K10 s m6 m false) (e : Ev)
     (he : (∀ i x, e ≠ .make i x) ∧ (∀ i, e ≠ .cancel i) ∧ e ≠ .close ∧ e ≠ .connOk ∧ (∀ c, e ≠ .bytesIn c)) :
@@ -982,13 +1134,24 @@ theorem k10_step (cfg : Cfg) (fuel : Nat) (s : StR) (m6 : RM6) (m : RM10) (h : I
     (hnf : NoFuelOut (stepRWith cfg fuel s e).2) :
     K10 (stepRWith cfg fuel s e).1 (fold6 m6 (stepRWith cfg fuel s e).2) (fold10 m (stepRWith cfg fuel s e).2) false := by
   cases e with
-  | make id ex hk0 => exact (spec10 cfg fuel s (.make id ex hk0) m6 m false h trivial hk hnf).1
+  | make id ex hk0 =>
+    simp only [stepRWith] at hnf ⊢
+    split
+    · rename_i hsy; rw [if_pos hsy] at hnf; exact (spec10 cfg fuel s (.make id ex hk0) m6 m false h trivial hk hnf).1
+    · rename_i hsy; rw [if_neg hsy] at hnf; exact (spec10 cfg fuel s (.makeS id ex hk0) m6 m false h trivial hk hnf).1
   | stubborn on =>
     simp only [stepRWith, fold6_nil, fold10_nil]
-    exact k10_core hk s.core rfl rfl rfl rfl rfl rfl _ _
+    exact k10_core hk s.core rfl rfl rfl rfl rfl rfl _ _ _
+  | syncMode sm =>
+    simp only [stepRWith, fold6_nil, fold10_nil]
+    exact k10_core hk s.core rfl rfl rfl rfl rfl rfl _ _ _
   | flat e =>
     cases e with
-    | make id ex => exact (spec10 cfg fuel s (.make id ex none) m6 m false h trivial hk hnf).1
+    | make id ex =>
+      simp only [stepRWith] at hnf ⊢
+      split
+      · rename_i hsy; rw [if_pos hsy] at hnf; exact (spec10 cfg fuel s (.make id ex none) m6 m false h trivial hk hnf).1
+      · rename_i hsy; rw [if_neg hsy] at hnf; exact (spec10 cfg fuel s (.makeS id ex none) m6 m false h trivial hk hnf).1
     | cancel id => exact (spec10 cfg fuel s (.cancel id) m6 m false h trivial hk hnf).1
     | close => exact (spec10 cfg fuel s .close m6 m false h trivial hk hnf).1
     | connOk =>
@@ -1009,7 +1172,7 @@ theorem k10_step (cfg : Cfg) (fuel : Nat) (s : StR) (m6 : RM6) (m : RM10) (h : I
           · simp_all
         rw [if_neg (by simp [hcl])] at hnf ⊢
         have j : Inv6 { s with core := { s.core with failures := 0, connector := .none, proto := some s.core.nconn, nconn := s.core.nconn + 1, losing := false, rbuf := [] } } m6 [] false :=
-          inv6_core h { s.core with failures := 0, connector := .none, proto := some s.core.nconn, nconn := s.core.nconn + 1, losing := false, rbuf := [] } rfl rfl rfl _ _
+          inv6_core h { s.core with failures := 0, connector := .none, proto := some s.core.nconn, nconn := s.core.nconn + 1, losing := false, rbuf := [] } rfl rfl rfl _ _ _
         have kk : K10 { s with core := { s.core with failures := 0, connector := .none, proto := some s.core.nconn, nconn := s.core.nconn + 1, losing := false, rbuf := [] } } m6 m false := by
           refine ⟨hk.ok, hk.firedEq, hk.closedEq, by simp, by simp, ?_, ?_, Or.inl hd, by simp⟩
           · intro w hw; have := hk.wLt w hw; simp only; omega
@@ -1032,8 +1195,47 @@ theorem k10_step (cfg : Cfg) (fuel : Nat) (s : StR) (m6 : RM6) (m : RM10) (h : I
         · rename_i c hp hl
           exact (spec10 cfg fuel s (.frames c (feed s.core.rbuf chunk).frames (feed s.core.rbuf chunk)) m6 m false h ⟨hp, rfl⟩ hk (by simpa [hp, hl] using hnf)).1
     | connFail => exact k10_flat_other cfg s m6 m h hk .connFail (by simp)
-    | advance dt => exact k10_flat_other cfg s m6 m h hk (.advance dt) (by simp)
-    | lost => exact k10_flat_other cfg s m6 m h hk .lost (by simp)
+    | advance dt =>
+      simp only [stepRWith] at hnf ⊢
+      split
+      · exact k10_flat_other cfg s m6 m h hk (.advance dt) (by simp)
+      · rename_i hsy
+        rw [if_neg hsy] at hnf
+        split
+        · simp only [fold6_cons, fold6_nil, fold10_cons, fold10_nil, Afkak.Monitor.C06.r06Ob, r10Ob, Afkak.Monitor.C10.r10Ob]
+          exact hk
+        · rename_i hdt
+          rw [if_neg hdt] at hnf
+          split
+          · rename_i due hco
+            simp only [hco] at hnf
+            have hpn : s.core.proto = none := by
+              cases hp : s.core.proto
+              · rfl
+              · have := hk.connProto (by simp [hp]); simp_all
+            split
+            · rename_i hdue
+              rw [if_pos hdue] at hnf
+              obtain ⟨k2, _⟩ := spec10 cfg fuel _ .dial m6 m false (inv6_core h _ (by rfl) (by rfl) (by rfl) _ _ _) ⟨by exact hpn, rfl⟩
+                (k10_core hk _ (by rfl) (by rfl) (by rfl) (by simp only [hco]) (by rfl) (by rfl) _ _ _) hnf
+              rw [← hco] at k2
+              exact k2
+            · simp only [fold6_nil, fold10_nil]
+              exact k10_core hk _ (by rfl) (by rfl) (by rfl) (by rfl) (by rfl) (by rfl) _ _ _
+          · simp only [fold6_nil, fold10_nil]
+            exact k10_core hk _ (by rfl) (by rfl) (by rfl) (by rfl) (by rfl) (by rfl) _ _ _
+    | lost =>
+      simp only [stepRWith] at hnf ⊢
+      split
+      · exact k10_flat_other cfg s m6 m h hk .lost (by simp)
+      · rename_i hsy
+        rw [if_neg hsy] at hnf
+        split
+        · simp only [fold6_cons, fold6_nil, fold10_cons, fold10_nil, Afkak.Monitor.C06.r06Ob, r10Ob, Afkak.Monitor.C10.r10Ob]
+          exact hk
+        · rename_i c hp
+          simp only [hp] at hnf
+          exact (spec10 cfg fuel s .lost m6 m false h ⟨⟨c, hp⟩, rfl⟩ hk hnf).1
     | disconnect => exact k10_flat_other cfg s m6 m h hk .disconnect (by simp)
     | updateMetadata a b => exact k10_flat_other cfg s m6 m h hk (.updateMetadata a b) (by simp)
     | writeFail b => exact k10_flat_other cfg s m6 m h hk (.writeFail b) (by simp)
